@@ -12,19 +12,23 @@
 #include <string>
 #include <vector>
 #include <atomic>
+#include <memory>
 
 typedef unsigned long long u64;
 static std::atomic<u64> g_cmp_calls{0};
 
+static std::vector<std::pair<u64, u64>>* g_vtrace = nullptr;      // comparator calls (first argument, second argument), when recording
 struct Cmp {
-    int kind; u64 p;   // 0 lt, 1 gt, 2 div p, 3 mod p
+    int kind; u64 p;   // 0 lt, 1 gt, 2 div p, 3 mod p, 4 gap p (x + p < y: a strict PARTIAL order, not a strict weak ordering)
     bool operator()(u64 x, u64 y) const {
         g_cmp_calls.fetch_add(1, std::memory_order_relaxed);
+        if (g_vtrace) g_vtrace->push_back({x, y});
         switch (kind) {
         case 0: return x < y;
         case 1: return x > y;
         case 2: return x / p < y / p;
-        default: return x % p < y % p;
+        case 3: return x % p < y % p;
+        default: return x + p < y;
         }
     }
 };
@@ -36,6 +40,7 @@ static bool parse_cmp(const std::string& w, Cmp& c) {
     u64 v;
     if (w.rfind("div", 0) == 0 && num(w.substr(3), v) && v) { c = {2, v}; return true; }
     if (w.rfind("mod", 0) == 0 && num(w.substr(3), v) && v) { c = {3, v}; return true; }
+    if (w.rfind("gap", 0) == 0 && num(w.substr(3), v)) { c = {4, v}; return true; }
     return false;
 }
 
@@ -90,6 +95,24 @@ int main() {
             std::printf("%zu %zu %ld", r.size, r2.size, (long)(r2.begin - a.data()));
             for (u64 x : a) std::printf(" %llu", x);
             if (r.begin != a.data()) std::printf(" BAD-BEGIN");
+            std::puts("");
+        } else if (op == "splitt") {
+            // split with the comparison trace, on an EXACT-SIZE heap block (a sanitizer build sees any access outside [begin,end))
+            std::vector<u64> a0; if (!read_arr(in, a0)) { std::puts("bad-op"); continue; }
+            if (a0.empty()) { std::puts("none"); continue; }
+            std::unique_ptr<u64[]> buf(new u64[a0.size()]);
+            u64* a = buf.get();
+            for (size_t i = 0; i < a0.size(); ++i) a[i] = a0[i];
+            std::vector<std::pair<u64, u64>> tr;
+            QR r(a, a0.size(), c);
+            g_vtrace = &tr;
+            QR r2(r, tbb::split());
+            g_vtrace = nullptr;
+            std::printf("%zu %zu %ld", r.size, r2.size, (long)(r2.begin - a));
+            for (size_t i = 0; i < a0.size(); ++i) std::printf(" %llu", a[i]);
+            if (r.begin != a) std::printf(" BAD-BEGIN");
+            std::printf(" trace=");
+            for (size_t i = 0; i < tr.size(); ++i) std::printf("%s%llu:%llu", i ? "," : "", tr[i].first, tr[i].second);
             std::puts("");
         } else if (op == "med3") {
             size_t l, m, rr; if (!(in >> l >> m >> rr)) { std::puts("bad-op"); continue; }
